@@ -99,20 +99,33 @@ Section Lines.
   (* ---------------------------------------------------------------- segments *)
   (* lines [ls] have, on every panel and from every tracker state, the effects [es] *)
   Definition seg (ls : list (list Z)) (es : list effect) : Prop :=
+    Forall (fun l => wf_in_line js jm ncp l = true) ls /\
     forall p x, exists x', sem (p, x) ls = (apply_effs p es, x').
 
   Lemma seg_nil : seg [] [].
-  Proof. intros p x. exists x. reflexivity. Qed.
+  Proof. split; [constructor|]. intros p x. exists x. reflexivity. Qed.
 
   Lemma seg_app a b ea eb : seg a ea -> seg b eb -> seg (a ++ b) (ea ++ eb).
   Proof.
-    intros Ha Hb p x. unfold seg, sem_in_lines in *. rewrite fold_left_app.
+    intros [Na Ha] [Nb Hb]. split; [apply Forall_app; split; assumption|]. intros p x.
+    unfold sem_in_lines in *. rewrite fold_left_app.
     destruct (Ha p x) as [x1 ->]. destruct (Hb (apply_effs p ea) x1) as [x2 ->].
     exists x2. unfold apply_effs. rewrite fold_left_app. reflexivity.
   Qed.
 
+  Lemma in_read_wf_nolf l e : in_rd l = Wf e -> nolf l = true.
+  Proof.
+    unfold in_read. intros H. destruct (existsb (Z.eqb 10) l) eqn:E; [discriminate|]. apply existsb_nolf. exact E.
+  Qed.
+
+  Lemma wf_line_nolf l : wf_in_line js jm ncp l = true -> nolf l = true.
+  Proof. unfold wf_in_line. destruct (in_rd l) eqn:E; try discriminate. intros _. eapply in_read_wf_nolf; eauto. Qed.
+
   Lemma seg_one l es : in_rd l = Wf (LEffs es) -> seg [l] es.
-  Proof. intros H p x. exists x. unfold sem_in_lines. cbn [fold_left]. unfold sem_in_line. rewrite H. reflexivity. Qed.
+  Proof.
+    intros H. split; [constructor; [unfold wf_in_line; rewrite H; reflexivity|constructor]|]. intros p x. exists x.
+    unfold sem_in_lines. cbn [fold_left]. unfold sem_in_line. rewrite H. reflexivity.
+  Qed.
 
   Lemma seg_if (b : bool) l es : in_rd l = Wf (LEffs es) -> seg (if b then [l] else []) (if b then es else []).
   Proof. intros H. destruct b; [apply seg_one; exact H|apply seg_nil]. Qed.
